@@ -54,6 +54,25 @@ func genJoe(rng *rand.Rand, g jGen) *jScenario {
 		for i := 0; i < h; i++ {
 			sc.Prefix = append(sc.Prefix, jMsg{Token: next(), Topics: pickTopics(rng, 2)})
 		}
+		if len(sc.Replayer) > 6 && sc.Replayer[:6] == "valid:" && rng.IntN(2) == 0 {
+			// a short TTL and gaps between the prefix publishes: older events expire, Put-triggered
+			// collections run, the ring grows, wraps and shrinks
+			sc.ValidTTL = int64(200 + rng.IntN(1800))
+			h2 := rng.IntN(14)
+			for i := h; i < h+h2; i++ {
+				sc.Prefix = append(sc.Prefix, jMsg{Token: next(), Topics: pickTopics(rng, 2)})
+			}
+			for range sc.Prefix {
+				g := int64(0)
+				switch rng.IntN(4) {
+				case 0:
+					g = int64(rng.IntN(int(sc.ValidTTL)))
+				case 1:
+					g = int64(rng.IntN(int(sc.ValidTTL)/4 + 1))
+				}
+				sc.PrefixGaps = append(sc.PrefixGaps, g)
+			}
+		}
 	}
 	nsubs := 1 + rng.IntN(g.MaxSubs)
 	for i := 0; i < nsubs; i++ {
